@@ -12,6 +12,8 @@ response is corrupted according to <corruption>:
   unknown-oid          objects[0].oid = "abab...ab" (an OID the client never asked about)
   oid-removed          objects[0] without "oid"
   error-unknown-oid    objects[0] = {"oid": "abab...ab", "size": n, "error": {"code": 404, "message": "not found"}}
+  href-space           objects[0].actions.<rel>.href += "?sig=1 x"   (a space in the query: the request line becomes malformed, any HTTP
+                       server answers 400 without reading the request body)
 
 Every request is logged to stderr as "METHOD path".
 """
@@ -72,6 +74,8 @@ class H(BaseHTTPRequestHandler):
                     objs[0]["oid"] = "ab" * 32
                 elif MODE == "oid-removed":
                     del objs[0]["oid"]
+                elif MODE == "href-space" and "actions" in objs[0]:
+                    objs[0]["actions"][rel]["href"] += "?sig=1 x"
                 elif MODE == "error-unknown-oid":
                     objs[0] = {"oid": "ab" * 32, "size": objs[0]["size"], "error": {"code": 404, "message": "not found"}}
             return self.reply(200, {"transfer": "basic", "objects": objs, "hash_algo": "sha256"})
